@@ -132,12 +132,13 @@ H5G_OK = "gid(self) != 0"
 REG.contract(
     "nixio.hdf5.h5group.H5Group.set_attr", assumed=True,
     params=dict(self=Obj("H5Group"), name=Str, value=Dyn),
-    requires=[H5G_OK],
-    modifies=["attr"],
+    modifies=["attr", "link", "ord", "kind", "fresh"],
     raises={"TypeError#h5": ("not storable(value)", "helper")},
-    ensures=["same(sigma('attr'), attr_set(old(sigma('attr')), gid(self), name, value))"],
-    note="h5py attrs[name] = value / del attrs[name] for None; the group exists (callers establish gid != 0); "
-         "raises for values h5py cannot store")
+    ensures=["same(sigma('attr'), attr_set(ens('attr', self), ens_gid(self), name, value))",
+             "same(sigma('link'), ens('link', self)) and same(sigma('ord'), ens('ord', self)) and "
+             "same(sigma('kind'), ens('kind', self)) and freshid() == ens_fresh(self)"],
+    note="_create_h5obj (creates the group if it is not in the file yet), then h5py attrs[name] = value / "
+         "del attrs[name] for None; raises for values h5py cannot store")
 
 _STORABLE = z3.Function("h5_storable", Val, BoolS)
 
@@ -247,18 +248,44 @@ def target_obj(ex, p, t):
 REG.contract(
     "nixio.hdf5.h5group.H5Group.open_group", assumed=True,
     params=dict(self=Obj("H5Group"), name=Str, create=Bool), result=Obj("H5Group"),
-    requires=[H5G_OK],
     modifies=["link", "ord", "kind", "fresh", "attr"],
-    let="g = gid(self); isnew = create and link(g, name) == 0",
+    let="g = ens_gid(self); f = ens_fresh(self)",
     ensures=["result == child(g, name)",
-             "(not isnew) implies (unchanged('link') and unchanged('ord') and unchanged('kind') and unchanged('fresh') "
-             "and unchanged('attr'))",
-             "isnew implies (same(sigma('link'), link_set(old(sigma('link')), g, name, old(freshid()))) and "
-             "same(sigma('ord'), ord_set(ord_set(old(sigma('ord')), g, old(order(g)) + (name,)), old(freshid()), ())) and "
-             "freshid() == old(freshid()) + 1 and okind(old(freshid())) == 1 and "
-             "same(sigma('attr'), attr_clear(old(sigma('attr')), old(freshid()))) and "
-             "all_kinds_kept(old(freshid())))"],
-    note="H5Group(parent, name, create): creates an empty, creation-order-tracked group iff create and absent")
+             "same(sigma('link'), open_link(self, name, create)) and same(sigma('ord'), open_ord(self, name, create)) and "
+             "same(sigma('kind'), open_kind(self, name, create)) and same(sigma('attr'), open_attr(self, name, create)) and "
+             "freshid() == open_fresh(self, name, create)"],
+    note="_create_h5obj on self (creates the group itself if missing), then H5Group(self.group, name, create): "
+         "creates an empty, creation-order-tracked child group iff create and absent")
+
+
+def _open_state(ex, p, h, name, create):
+    st, g = _ens_state(ex, _oldp(ex, p), h)
+    c = ex.truth(p, create)
+    n = name.t
+    isnew = z3.And(c, st["link"][g][n] == 0)
+    f = st["fresh"]
+    out = dict(st)
+    out["link"] = z3.If(isnew, z3.Store(z3.Store(st["link"], g, z3.Store(st["link"][g], n, f)), f, z3.K(StrS, z3.IntVal(0))),
+                        st["link"])
+    out["ord"] = z3.If(isnew, z3.Store(z3.Store(st["ord"], g, z3.Concat(st["ord"][g], z3.Unit(n))), f,
+                                       z3.Empty(z3.SeqSort(StrS))), st["ord"])
+    out["kind"] = z3.If(isnew, z3.Store(st["kind"], f, z3.IntVal(1)), st["kind"])
+    out["attr"] = z3.If(isnew, z3.Store(st["attr"], f, z3.K(StrS, Val.VNone)), st["attr"])
+    out["fresh"] = z3.If(isnew, f + 1, f)
+    return out
+
+
+for _c in ("link", "ord", "kind", "attr"):
+    def _mk(c):
+        def fn(ex, p, h, name, create):
+            return VOpaqueTerm(_open_state(ex, p, h, name, create)[c])
+        return fn
+    REG.specfuncs["open_" + _c] = _mk(_c)
+
+
+@REG.specfunc()
+def open_fresh(ex, p, h, name, create):
+    return VInt(_open_state(ex, p, h, name, create)["fresh"])
 
 
 @REG.specfunc()
@@ -347,3 +374,52 @@ def h5_convertible(ex, p, data, dtype):
                          z3.Or(Val.is_VInt(Val.vseq(d)[0]), Val.is_VReal(Val.vseq(d)[0])))
         p.assume(z3.Implies(z3.And(t == dbl, z3.Or(numeric, numvals)), _CONVOK(d, t)))
     return VBool(_CONVOK(d, t))
+
+
+
+# ---------------------------------------------------------------------------------------------------------
+# lazy creation: every mutating H5Group method first makes sure its own group exists (_create_h5obj)
+# ---------------------------------------------------------------------------------------------------------
+def _ens_state(ex, oldp, h):
+    """store components after `h._create_h5obj()` in state oldp; returns (dict, gid term)"""
+    pgA = ex.bi.heap_array(oldp, "pgid", Int)
+    nmA = ex.bi.heap_array(oldp, "name", Str)
+    pg, nm = pgA[h.t], nmA[h.t]
+    S = oldp.sigma
+    g0 = S["link"][pg][nm]
+    isnew = g0 == 0
+    f = S["fresh"]
+    out = dict(S)
+    out["link"] = z3.If(isnew, z3.Store(z3.Store(S["link"], pg, z3.Store(S["link"][pg], nm, f)), f, z3.K(StrS, z3.IntVal(0))),
+                        S["link"])
+    out["ord"] = z3.If(isnew, z3.Store(z3.Store(S["ord"], pg, z3.Concat(S["ord"][pg], z3.Unit(nm))), f,
+                                       z3.Empty(z3.SeqSort(StrS))), S["ord"])
+    out["kind"] = z3.If(isnew, z3.Store(S["kind"], f, z3.IntVal(1)), S["kind"])
+    out["attr"] = z3.If(isnew, z3.Store(S["attr"], f, z3.K(StrS, Val.VNone)), S["attr"])
+    out["fresh"] = z3.If(isnew, f + 1, f)
+    return out, z3.If(isnew, f, g0)
+
+
+def _oldp(ex, p):
+    se = ex.lookup(p, "__specenv__")
+    return se.old if se.old is not None else se.p
+
+
+@REG.specfunc()
+def ens(ex, p, comp, h):
+    """store component `comp` of the PRE-state after making sure the group of handle h exists"""
+    nm = z3.simplify(comp.t).as_string()
+    st, _ = _ens_state(ex, _oldp(ex, p), h)
+    return VOpaqueTerm(st[nm])
+
+
+@REG.specfunc()
+def ens_gid(ex, p, h):
+    _, g = _ens_state(ex, _oldp(ex, p), h)
+    return VInt(g)
+
+
+@REG.specfunc()
+def ens_fresh(ex, p, h):
+    st, _ = _ens_state(ex, _oldp(ex, p), h)
+    return VInt(st["fresh"])
